@@ -48,7 +48,9 @@ def write_replay(path, inputs, ufs, mode):
     for i in inputs:
         k = i['kind']
         v = i['value']
-        if mode != 'BITS' and k in ('f32', 'f64', 'unit_f32', 'unit_f64'):
+        if i.get('bits'):
+            b = v
+        elif mode != 'BITS' and k in ('f32', 'f64', 'unit_f32', 'unit_f64'):
             b = to_bits(k, v if isinstance(v, str) else str(v))
         else:
             b = to_bits(k, v)
@@ -335,6 +337,12 @@ def replay_failure(fe, res, f, outdir):
     write_replay(rp, f['inputs'], f['ufs'], spec['mode'])
     dbgflav = spec['flavour'] in ('dbg', 'dsan')
     tries = []
+    if kind == 'PRECISION-LOSS':
+        exe, d = fe.native(spec['harness'], spec['inst'], NATIVE_FLAGS['rel'], spec.get('defs', ()), tag='rrel')
+        if exe is None:
+            return False, rp, 'native build failed: ' + first_error(d)
+        rc, out, err = run_native(exe, rp)
+        return ('ASSERT-FAIL' in out), rp, f'[rel] rc={rc} ' + out[-300:].replace('\n', ' / ')
     if kind == 'ASSERT-FAIL':
         tries = [('dbg' if dbgflav else 'rel', False)]
         if spec.get('native') == 'tsan':
